@@ -248,9 +248,16 @@ func runCase(rp *Replay, cg *caseGen) (*Case, error) {
 	if err != nil {
 		return nil, err
 	}
-	defer srv.Stop()
 	cursor.VC03SetTimeouts(srv.Provider, time.Hour, time.Hour)
 	r := &runner{srv: srv, rp: rp, byPart: map[int]*partRef{}, kinds: map[string]int{}}
+	defer func() {
+		if r.hung {
+			// a request is still spinning inside the server: do not wait for its shutdown
+			go srv.Stop()
+			return
+		}
+		srv.Stop()
+	}()
 	for _, b := range rp.Init {
 		if err := r.write(b); err != nil {
 			return nil, err
